@@ -291,6 +291,7 @@ type World struct {
 	onDisconnect map[int]func() // run when the broker has read a DISCONNECT from that connection, before it acts on it
 	lastHeard    map[int]time.Time
 	stallOnly    map[int]broker.LogEvent // Stall restricted to one log event
+	mustRelease  []int                   // connections the broker has to close by the end of the case (turned away)
 	noModel      bool           // monitors only: the model is not asked (lines are written as comments)
 	longCase     bool           // a very long, regular script: monitor hits carry the head and the tail of the trace only
 	concurrent   bool           // stimuli were fired concurrently: order-sensitive monitors are switched off
